@@ -83,6 +83,18 @@ pub fn run_conv(out: &mut Out, seed: u64, random: u64) {
             if !ok { out.finding("conversion", "num", x, &ph, &format!("Integer({}) (the expression is the identity on Integers)", n), &o.show(), json!({})); }
         }
     }
+    // whole-number Floats outside the i64 range stay the Floats they are through every expression that is the identity on them
+    // (an exact integer detour - i128 sums, casts - wraps or saturates there)
+    for f in [9223372036854775808.0f64, 18446744073709551616.0, -18446744073709551616.0, 1e30, -1e30, 9.3e18, 1.7e38, 3.5e38, -9223372036854777856.0] {
+        for x in ["@", "avg(@)", "avg(@,@)", "med(@)", "med(@,@)", "max(@)", "min(@,@)", "floor(@)", "ceil(@)", "round(@)", "trunc(@)", "@+0", "@*1", "@/1", "abs(@)*sgn(@)", "-(-@)", "@^1"] {
+            let ph = Val::N(Number::Float(f));
+            let (o, _) = crate::call::call("num", x, &ph);
+            out.stats.calls += 1;
+            let key = h64(&("identf", x, f.to_bits())); out.stats.distinct.insert(key); out.stats.nontrivial.insert(key);
+            let ok = matches!(&o, crate::val::Outcome::Ok(Val::N(Number::Float(g))) if *g == f);
+            if !ok { out.finding("conversion", "num", x, &ph, &format!("Float({:e}) (the expression is the identity on a whole Float outside the i64 range)", f), &o.show(), json!({})); }
+        }
+    }
     // an Integer next to a Float: selecting between them (max, min, median of three) must go by their exact numeric values - the
     // Integer is not converted to a double, the Float not cast to an integer (the casts saturate at the ends of the range)
     let big_ints: Vec<i64> = vec![i64::MAX, i64::MIN, i64::MAX - 1, i64::MIN + 1, (1 << 53) + 1, -(1 << 53) - 1, 9007199254740993, 0, -1, 1 << 62];
